@@ -7,7 +7,7 @@ from sa.astx import NotConst, call_attr, call_name, const_eval, src, walk_local
 from sa.domains import replace_chain
 from sa.selftest import Mutant, Silent
 from sa.source import methods
-from sa.props._lib_j import (body_always_entered, catching_handler, edge_asserts, local_defs, no_exc, node_calls, params, rsrc,
+from sa.props._lib_j import (body_always_entered, normalise, catching_handler, edge_asserts, local_defs, no_exc, node_calls, params, resolve, rsrc,
                              run_sections)
 
 PROPERTY = "C51"
@@ -27,6 +27,8 @@ EXPLANATION = (
     "Every anchor function is also checked to be entered on every call (no memoising/wrapping decorator, duplicate definition or rebinding). "
 )
 ASSUMPTIONS = [
+    "the rules read a normalised view of the anchored modules (sa/props/_lib_j.Normaliser): private helpers expanded at their call sites, module constants and single-assignment pure temporaries substituted, loops over constant tuples unrolled; evaluation order inside one statement is not modelled",
+   
     "os.rename / os.remove are atomic with respect to a process crash",
     "no files other than DirDBM's own are placed in the directory (documented precondition)",
 ]
@@ -34,23 +36,32 @@ B64 = b"ABCDEFGHIJKLMNOPQRSTUVWXYZabcdefghijklmnopqrstuvwxyz0123456789+/=\n"
 MUTATORS = {"remove", "moveTo", "rename", "unlink", "rmdir", "makedirs", "createDirectory", "setContent", "_writeFile", "copyTo", "touch", "rmtree"}
 
 
-def _sibling(e):
-    """(base expr, suffix) for ``base.siblingExtension(<const>)``."""
-    if isinstance(e, ast.Call) and isinstance(e.func, ast.Attribute) and e.func.attr == "siblingExtension" and len(e.args) == 1:
+def _sibling_alternatives(d, defs):
+    """[(base expr, suffix, None | (test expr, arm))] for ``base.siblingExtension(<const> | <const> if <test> else <const>)`` (locals looked through);
+    None when ``d`` is not such a call."""
+    if not (isinstance(d, ast.Call) and isinstance(d.func, ast.Attribute) and d.func.attr == "siblingExtension" and len(d.args) == 1):
+        return None
+    arg = resolve(d.args[0], defs)
+
+    def alts(e, cond):
+        if isinstance(e, ast.IfExp) and cond is None:
+            a, b = alts(e.body, (e.test, True)), alts(e.orelse, (e.test, False))
+            return None if a is None or b is None else a + b
         try:
-            return e.func.value, const_eval(e.args[0])
+            return [(d.func.value, const_eval(e), cond)]
         except NotConst:
             return None
-    return None
+    return alts(arg, None)
 
 
 def _writer_exts(ctx):
     """Constant suffixes of the temporaries __setitem__ creates (siblingExtension(<const>))."""
     out = set()
-    for c in ast.walk(ctx.func(DB, "DirDBM.__setitem__")):
-        s_ = _sibling(c)
-        if s_ is not None:
-            out.add(s_[1])
+    f = ctx.func(DB, "DirDBM.__setitem__")
+    defs = local_defs(f, track_mutation=False)
+    for c in ast.walk(f):
+        for a in (_sibling_alternatives(c, defs) or []):
+            out.add(a[1])
     return out
 
 
@@ -68,10 +79,11 @@ def _s_setitem(ctx, S):
     tmp = wc.args[0]
     ctx.need(isinstance(tmp, ast.Name), "temporary path variable passed to _writeFile")
     tdefs = [d for d in defs.get(tmp.id, [])]
-    sibs = [(_sibling(d), d) for d in tdefs if d is not None]
+    alts_per_def = [(_sibling_alternatives(d, defs), d) for d in tdefs if d is not None]
+    sibs = [(a, d) for al, d in alts_per_def for a in (al or [None])]
     final = None
     writer_exts = set()
-    okshape = bool(sibs) and len(sibs) == len(tdefs) and all(s is not None for s, _ in sibs)
+    okshape = bool(sibs) and len(alts_per_def) == len(tdefs) and all(s is not None for s, _ in sibs)
     if okshape:
         bases = {src(s[0]) for s, _ in sibs}
         okshape = len(bases) == 1
@@ -81,10 +93,11 @@ def _s_setitem(ctx, S):
               f"the value is written to {rsrc(tmp, defs, keep=params(f))}, which is not (only) a siblingExtension() temporary of the final path: a crash in the "
               f"middle of the write leaves a partial value visible under the key")
     if final is None:       # the violation above is the verdict; find the final path through any temporary to keep checking the rest
-        cands = {src(_sibling(d)[0]) for v in defs.values() for d in v if d is not None and _sibling(d)}
+        every = [a for v in defs.values() for d in v if d is not None for a in (_sibling_alternatives(d, defs) or [])]
+        cands = {src(a[0]) for a in every}
         final = next(iter(cands)) if len(cands) == 1 else None
         if not writer_exts:
-            writer_exts = {_sibling(d)[1] for v in defs.values() for d in v if d is not None and _sibling(d)}
+            writer_exts = {a[1] for a in every}
     ctx.need(final, "final path variable (base of siblingExtension) in __setitem__")
     fin_r = rsrc(ast.parse(final, mode="eval").body, defs)
     ctx.check("self._dnamePath.child(" in fin_r and "_encode" in fin_r, "setitem/final-path-is-encoded-child", ctx.construct(q, "final path"),
@@ -96,6 +109,13 @@ def _s_setitem(ctx, S):
         assign = getattr(d, "_parent", None)
         nid = [n.id for n in g.nodes if n.ast is assign and g.reachable(n.id)]
         pol = [lab for x in nid for t, lab in edge_asserts(g, x) if src(t) == f"{final}.exists()"]
+        if s[2] is not None:          # the suffix is chosen by a conditional expression: its test plays the role of the dominating guard
+            t_, arm = s[2]
+            neg = False
+            while isinstance(t_, ast.UnaryOp) and isinstance(t_.op, ast.Not):
+                t_, neg = t_.operand, not neg
+            if src(t_) in (f"{final}.exists()", rsrc(ast.parse(final, mode="eval").body, defs) + ".exists()"):      # t_ is already resolved
+                pol = ["T" if (arm != neg) else "F"]
         want = {".rpl": "T", ".new": "F"}.get(s[1])
         ctx.check(want is not None and pol == [want], "setitem/suffix-matches-existence", ctx.construct(q, f"temporary suffix {s[1]!r}"),
                   {".rpl": "the .rpl (replacement) temporary is used although the old entry may not exist: recovery would rename a partially "
@@ -187,12 +207,23 @@ def _s_recovery(ctx, S):
             return out or None
         return None
 
+    def child_patterns(e):
+        out = []
+        for c in ast.walk(e):
+            if isinstance(c, ast.Call) and call_attr(c) == "child" and c.args:
+                try:
+                    out.append(const_eval(c.args[0]))
+                except NotConst:
+                    out.append(None)
+        return out
+
     for ln in loops:
         gl = globs_of(ln.ast.iter)
         if not gl:
             continue
         for it in gl:
-            pats = [const_eval(c.args[0]) for c in ast.walk(it) if isinstance(c, ast.Call) and call_attr(c) == "child" and c.args and isinstance(c.args[0], ast.Constant)]
+            it = resolve(it, local_defs(fi, track_mutation=False))
+            pats = child_patterns(it)
             if len(pats) != 1 or not (isinstance(pats[0], str) and pats[0].startswith("*")):
                 continue
             ok_dir = "self._dnamePath.child(" in src(it)
@@ -318,6 +349,7 @@ def _s_body(ctx, S):
 
 
 def check(ctx):
+    normalise(ctx, {DB: ["_encode", "_decode", "_readFile", "_writeFile", "_open"]})
     run_sections(ctx, [("setitem", _s_setitem), ("writeFile", _s_writefile), ("recovery", _s_recovery), ("encoding", _s_encoding), ("who-may-mutate", _s_who),
                        ("body-entered", _s_body)])
 
@@ -360,6 +392,13 @@ SILENT = [
     Silent("bare-except", DB, "            self._writeFile(new, v)\n        except BaseException:\n            new.remove()", "            self._writeFile(new, v)\n        except:\n            new.remove()"),
     Silent("recovery-branches-inverted", DB, "                if os.path.exists(old):\n                    os.remove(f)\n                else:\n                    os.rename(f, old)",
            "                if not os.path.exists(old):\n                    os.rename(f, old)\n                else:\n                    os.remove(f)"),
+    Silent("suffix-chosen-by-conditional-expression", DB, "        if old.exists():\n            new = old.siblingExtension(\".rpl\")  # Replacement entry\n        else:\n            new = old.siblingExtension(\".new\")  # New entry\n",
+           "        suffix = \".new\" if not old.exists() else \".rpl\"\n        new = old.siblingExtension(suffix)\n"),
+    Silent("recovery-in-private-helpers", DB, "            for f in glob.glob(self._dnamePath.child(\"*.new\").path):\n                os.remove(f)\n", "            self._dropHalfWritten()\n",
+           more=[(DB, "    def _encode(self, k):", "    def _dropHalfWritten(self):\n        pattern = self._dnamePath.child(\"*\" + _TMP_NEW).path\n        for leftover in glob.glob(pattern):\n            os.remove(leftover)\n\n    def _encode(self, k):"),
+                 (DB, "class DirDBM:\n", "_TMP_NEW = \".new\"\n\n\nclass DirDBM:\n")]),
+    Silent("encode-table-driven", DB, "        return base64.encodebytes(k).replace(b\"\\n\", b\"_\").replace(b\"/\", b\"-\")",
+           "        out = base64.encodebytes(k)\n        for bad, good in ((b\"\\n\", b\"_\"), (b\"/\", b\"-\")):\n            out = out.replace(bad, good)\n        return out"),
     Silent("recovery-loops-reordered", DB, "            for f in glob.glob(self._dnamePath.child(\"*.new\").path):\n                os.remove(f)\n            replacements = glob.glob(self._dnamePath.child(\"*.rpl\").path)\n            for f in replacements:\n                old = f[:-4]\n                if os.path.exists(old):\n                    os.remove(f)\n                else:\n                    os.rename(f, old)\n",
            "            replacements = glob.glob(self._dnamePath.child(\"*.rpl\").path)\n            for f in replacements:\n                old = f[:-4]\n                if os.path.exists(old):\n                    os.remove(f)\n                else:\n                    os.rename(f, old)\n            for stale in glob.glob(self._dnamePath.child(\"*.new\").path):\n                os.remove(stale)\n"),
 ]
